@@ -223,6 +223,23 @@ def rule_sh2(ctx, only=None):
         ("utils.circle_angles", CORE, "circle_angles",
          lambda O: c("circle_angles")(AArr(O + (2,)), AArr(O + ("k", 2))),
          lambda O: O + ("k",)),
+        ("utils.short_arc", CORE, "short_arc",
+         lambda O: c("short_arc")(AArr(O + (2,))), lambda O: O + (2,)),
+        ("utils.right_to_left", CORE, "right_to_left",
+         lambda O: c("right_to_left")(AArr(O + (2,))), lambda O: O + (2,)),
+        ("utils.arc_include", CORE, "arc_include",
+         lambda O: c("arc_include")(AArr(O + (2,)), AArr(O)),
+         lambda O: O + (2,)),
+        ("utils.order_eigs", CORE, "order_eigs",
+         lambda O: c("order_eigs")(AArr(O + N), AArr(O + ("n", "n"))),
+         lambda O: (O + N, O + ("n", "n"))),
+        ("utils.sphere_through", CORE, "sphere_through",
+         lambda O: c("sphere_through")(AArr(O + (3, 2))),
+         lambda O: (O + (2,), O)),
+        ("utils.circle_through", CORE, "circle_through",
+         lambda O: c("circle_through")(AArr(O + (2,)), AArr(O + (2,)),
+                                       AArr(O + (2,))),
+         lambda O: (O + (2,), O)),
         ("kleinian_to_poincare", HYP, "kleinian_to_poincare",
          lambda O: h("kleinian_to_poincare")(AArr(O + N)), lambda O: O + N),
         ("poincare_to_kleinian", HYP, "poincare_to_kleinian",
@@ -258,7 +275,15 @@ def rule_sh2(ctx, only=None):
             total += 1
             try:
                 got = run(O)
-                w = tuple(want(O))
+                w = want(O)
+                if w and isinstance(w[0], tuple):
+                    gs = tuple(x.shape if isinstance(x, AArr) else None
+                               for x in got) if isinstance(got, tuple) \
+                        else None
+                    if gs != tuple(tuple(x) for x in w):
+                        raise ShapeError(f"result shapes {gs}, expected {w}")
+                    continue
+                w = tuple(w)
                 gs = got.shape if isinstance(got, AArr) else None
                 # a rank-0 result may come back as a scalar
                 if gs is None and w == ():
